@@ -25,7 +25,11 @@ RULE = ("cases = corpus (defect witnesses) + N generated problems (50% consisten
         "time under another strategy; + N/10 rival-conclusion problems under every strategy; + N/10 string-literal problems, each under "
         "EVERY strategy (the goal-value parser exists once per strategy): literals that are the EMPTY string, one character, or contain blanks, "
         "as query literal on a field holding that / another string, as a string one rule has to derive, as a rule condition (== and !=) that is "
-        "not satisfied by the facts and becomes a sub-goal (one and two levels, conjunctions), and string-heavy consistent-Horn KBs. "
+        "not satisfied by the facts and becomes a sub-goal (one and two levels, conjunctions), and string-heavy consistent-Horn KBs; "
+        "+ N/12 'failing first alternative' problems (at depth 1..3 a candidate fails after it or its sub-goals wrote — interference through a "
+        "second assignment / Retract / Append, Err on the retry or the first attempt, wrong value, underivable condition, depth cut — then a later "
+        "alternative succeeds and the enclosing rule fails on an underivable last conjunct) and N/8 problems whose rules carry Append / Retract / "
+        "MethodCall(setSpeed) actions before / after their Set over facts holding arrays and objects, each under EVERY strategy (see C10 part B). "
         "Each case runs BackwardEngine::query on a fresh engine (real code); observed: provable, "
         "get_all_facts after, undo depth after (hook), #solutions. Oracles evaluated by the Lean driver on the implementation's "
         "observations, none of them running the search model: (i) provable => goal comparison true in the facts handed back; "
@@ -45,8 +49,11 @@ TRUSTED = [
     "harness/src/bin/c09.rs, Driver/C09.lean parsing/printing glue, check.py diff; hook Facts::verif_undo_depth",
 ]
 ASSUMPTIONS = [
-    "rule actions are Set field := literal; conditions are And/Or trees of `field op literal` (Field expressions); no Object values "
-    "in the store (get_nested falls through to get); strings in the tie are non-numeric; Number literals are whole (no rounding)",
+    "rule actions are Set field := literal, Append field += scalar literal, Retract field, MethodCall field.setSpeed(Number) (the action list "
+    "is modelled as its leading Set actions `acts` plus the rest `more`; the completeness theorems are about rules with Set actions only); "
+    "conditions are And/Or trees of `field op literal` (Field expressions); Object values only as {Speed: Number} on un-dotted field names "
+    "(get_nested of a one-component path is get); arrays hold scalars; strings in the tie are non-numeric; Number literals are whole (no rounding); "
+    "no Value::Expression arguments; Log and the no-op action arms are not driven",
     "no RETE engine attached (query, not query_with_rete_engine with Some(engine)): no proof-graph cache, no TMS inserter",
     "the query goal has no sub_goals (BackwardEngine::query never creates any), so BFS works at depth 0 only",
     "forward closure = forward reachability Reach under the backward engine's own ConditionEvaluator (DESIGN §6 C09)",
